@@ -10,6 +10,7 @@ Not decided: that heads equal "applied changes no applied change depends on" for
 (that needs the graph algorithms to be right), nor start_op being greater than every *applied* op
 beyond what max_op() returns.
 """
+import re
 from .. import cfg, util, rules, facts
 from ..util import callee, decl, norm_fn
 
@@ -61,6 +62,10 @@ def updater_shape(b, f):
             pv = b.provenance(t["args"][1], through_calls=True)
             src = sorted(norm_fn(c).split("::")[-1] for c in pv.callees() if norm_fn(c).startswith("automerge::change::Change::"))
             out.append((fn.split("::")[-1], tuple(src)))
+        elif re.search(r"(BTreeSet|HashSet)::(clear|retain|extend|append|split_off|drain|take|replace|pop_first|pop_last|extract_if)$", fn) or \
+                (fn == "core::iter::traits::collect::Extend::extend" and t.get("argtys") and ("BTreeSet" in t["argtys"][0] or "HashSet" in t["argtys"][0])):
+            # any other way of changing a heads set in an updater is part of its shape (and makes it differ from the sibling)
+            out.append((fn.split("::")[-1], ()))
     return sorted(out)
 
 
@@ -152,6 +157,27 @@ def run(ctx):
                 single = any(c.endswith(("::last", "::first", "::get", "::pop")) for c in cs)
                 ctx.ob("R9-meta", "ChangeGraphCols::load|max_op from the whole max_op column", trav and not single, s["sp"],
                        "derived through a traversal" if trav and not single else "graph max_op is taken from a single stored change (%s): start_op of the next local change may not exceed every applied op" % sorted(c.split("::")[-1] for c in cs)[:6])
+    # whenever this is not the actor's first change (seq > 1, non-isolated), the dependency list is checked for the actor's previous
+    # change: every path from the `seq > 1` edge to the TransactionArgs construction passes deps.contains(last_hash)
+    def seq_gt_1(src):
+        if src["kind"] == "bin" and src["op"] in ("Gt", "Ge", "Lt", "Le", "Ne", "Eq"):
+            ks = [util.op_const(o) for o in src["o"]]
+            other = [o for o, k in zip(src["o"], ks) if k is None]
+            if any(k is not None and k.get("v") == "1" for k in ks) and other:
+                pv = tb.provenance(other[0], through_calls=True)
+                if any(norm_fn(c).endswith("::seq_for_actor") for c in pv.callees()):
+                    return True if src["op"] in ("Gt", "Ne") else (False if src["op"] in ("Le", "Eq") else None)
+        return None
+    seq_edges = rules.guard_edges(tb, seq_gt_1)
+    contains = [bi for bi, t in tb.calls() if norm_fn(t.get("fn")) in ("core::slice::<impl [T]>::contains", "alloc::vec::Vec::contains", "core::slice::contains") or (norm_fn(t.get("fn")) or "").endswith("::contains")]
+    contains = [bi for bi in contains if any(norm_fn(c).endswith("::get_hash") for c in tb.provenance(tb.blocks[bi]["t"]["args"][1], through_calls=True).callees())]
+    ctx.floor("`seq > 1` tests in transaction_args", len(seq_edges), 1)
+    ctx.floor("deps.contains(last_hash) tests in transaction_args", len(contains), 1)
+    for bi, st in aggs:
+        escapes = [e for e in seq_edges if tb.paths_exist_avoiding(e[1], bi, avoid_blocks=contains)]
+        ctx.ob("R9-meta", "transaction_args|seq > 1 always reaches deps.contains(previous change)", not escapes, st["sp"],
+               "every path from `seq > 1` to the arguments passes the containment test" if not escapes else
+               "a local change that is not the actor's first can be created without checking that it depends on the actor's previous change (witness %s)" % tb.witness_path(escapes[0][1], bi, avoid_blocks=contains))
     # the actor's previous change is pushed onto deps (non-isolated), from get_hash(actor_index, seq-1)
     pushes = [(bi, t) for bi, t in tb.calls() if norm_fn(t.get("fn")) == "alloc::vec::Vec::push" and "ChangeHash" in t["argtys"][0]]
     ctx.floor("deps.push in transaction_args", len(pushes), 1)
